@@ -126,6 +126,14 @@ def r1(ctx, F, sc, conf):
             len_ok = is_bs_term(len_t)
             off_o = fl.origins(pt['args'][1])
             idx_ok = any(o.kind == 'call' and o.bb == lb and (o.path[-1:] == ('index',) or returns_block_index(F, c)) for o in off_o)
+            if not idx_ok and any(o.kind == 'call' and o.bb == lb for o in off_o):
+                # `lookup(..).map(|sig| sig.index)`: the projection sits in the closure handed to the combinator
+                for o in off_o:
+                    cb_ = F.body(o.key) if o.kind == 'agg' else None
+                    if cb_ is not None:
+                        ro = [x for x in flow_of(cb_).origins(0) if x.kind != 'comb']
+                        if ro and all(x.kind == 'param' and tuple(x.path)[-1:] == ('index',) for x in ro):
+                            idx_ok = True
             if not len_ok:
                 why = 'copy length is not the block size of the confirmed window'
                 continue
